@@ -1,0 +1,5 @@
+//go:build !verif
+
+package ipfslog
+
+func verifPoint(*IPFSLog, string) {}
